@@ -20,6 +20,9 @@ class ImplResult:
         self.err_type = err_type
         self.err_msg = err_msg
         self.network = network
+        self.rerender_same = True
+        self.pkg2 = None
+        self.top2 = None
 
 
 def run_floogen(cfg, keep_network=False):
@@ -33,9 +36,15 @@ def run_floogen(cfg, keep_network=False):
             network.gen_routing_info()
             pkg = network.render_package()
             top = network.render_network()
+            # rendering must not change the compiled network: render once more
+            pkg2 = network.render_package()
+            top2 = network.render_network()
     except Exception as e:  # pylint: disable=broad-except
         return ImplResult(False, err_type=type(e).__name__, err_msg=str(e)[:500])
-    return ImplResult(True, pkg=pkg, top=top, network=network if keep_network else None)
+    res = ImplResult(True, pkg=pkg, top=top, network=network if keep_network else None)
+    res.rerender_same = (pkg2 == pkg and top2 == top)
+    res.pkg2, res.top2 = pkg2, top2
+    return res
 
 
 def load_yaml(path):
